@@ -75,6 +75,9 @@ PURE_EXTERNAL = {
 PURE_CALLABLES = set(PURE_EXTERNAL.values())
 
 
+REC_METHODS = {}      # record type (built by Folder.record_class) -> {method name: FuncConst}
+
+
 class Folder:
     def __init__(self, importer=None):
         self.unfolded = {}   # name -> reason
@@ -344,16 +347,14 @@ class Folder:
         if not fields:
             return None
         t = _collections.namedtuple(st.name, fields, defaults=defaults or None)
-        if not hasattr(self, 'rec_methods'):
-            self.rec_methods = {}
-        self.rec_methods[t] = methods
+        REC_METHODS[t] = methods
         return t
 
     def e_Attribute(self, e, env):
         v = self.expr(e.value, env)
         if isinstance(v, tuple) and hasattr(type(v), '_fields'):
             if e.attr in type(v)._fields: return getattr(v, e.attr)
-            ms = getattr(self, 'rec_methods', {}).get(type(v), {})
+            ms = REC_METHODS.get(type(v), {})
             if e.attr in ms: return ('recmeth', v, ms[e.attr])
             if e.attr in ('_replace', '_asdict'): return ('recbound', v, e.attr)
             if e.attr == '_fields': return type(v)._fields
